@@ -205,6 +205,9 @@ class Client(threading.Thread):
                     status = sts[0] if sts else 0
                     want = req.get('want')
                     if want is not None:
+                        if want.get('ignore_1xx'):
+                            sts = [s for s in sts if s >= 200]
+                            status = sts[0] if sts else 0
                         if sts != want['statuses']:
                             verdict = 'raw exchange %s: statuses %r, expected %r' % (req['name'], sts, want['statuses'])
                         else:
@@ -285,8 +288,20 @@ def make_plan(rng, ctx, circles, n, heavy):
             reqb = b'POST / HTTP/1.1\r\nHost: x\r\nContent-Length: %d\r\n\r\n' % len(body) + body
             getb = b'GET / HTTP/1.1\r\nHost: x\r\n\r\n'
             closeb = b'GET / HTTP/1.1\r\nHost: x\r\nConnection: close\r\n\r\n'
-            which = rng.randrange(3)
-            if which == 0:
+            which = rng.randrange(6)
+            if which == 3:
+                # the same POST with a query string: still a POST of that body
+                q = b'POST /?' + rng.choice([b'a=b', b'x', b'scale=2&k=%3C', b'']) + b' HTTP/1.1\r\nHost: x\r\nConnection: close\r\nContent-Length: %d\r\n\r\n' % len(body) + body
+                plan.append({'kind': 'raw', 'name': 'query-string', 'chunks': [q], 'timeout': 20.0, 'want': {'statuses': [200], 'bodies': [exp.out.encode('utf-8')]}})
+            elif which == 4:
+                # Expect: 100-continue, the body sent after a pause; an interim 100 may or may not be sent
+                h = b'POST / HTTP/1.1\r\nHost: x\r\nConnection: close\r\nExpect: 100-continue\r\nContent-Length: %d\r\n\r\n' % len(body)
+                plan.append({'kind': 'raw', 'name': 'expect-continue', 'chunks': [h, body], 'pause': 0.05, 'timeout': 20.0,
+                             'want': {'statuses': [200], 'ignore_1xx': True, 'bodies': [exp.out.encode('utf-8')]}})
+            elif which == 5:
+                q = b'POST / HTTP/1.0\r\nContent-Length: %d\r\n\r\n' % len(body) + body
+                plan.append({'kind': 'raw', 'name': 'http10', 'chunks': [q], 'timeout': 20.0, 'want': {'statuses': [200], 'bodies': [exp.out.encode('utf-8')]}})
+            elif which == 0:
                 plan.append({'kind': 'raw', 'name': 'pipelined', 'chunks': [reqb + getb + reqb + closeb], 'timeout': 20.0,
                              'want': {'statuses': [200, 200, 200, 200], 'bodies': [exp.out.encode('utf-8')]}})
             elif which == 1:
